@@ -251,10 +251,12 @@ def fuzz_stage(name, runs, corpus):
                 os.makedirs(os.path.join(wd, "c"))
                 for fn in os.listdir(cdir):
                     os.link(os.path.join(cdir, fn), os.path.join(wd, "c", fn))
-            procs.append((wd, subprocess.Popen(cmd, env=env, cwd=wd, stdout=subprocess.PIPE, stderr=subprocess.STDOUT, text=True)))
+            procs.append((wd, subprocess.Popen(cmd, env=env, cwd=wd, stdout=open(os.path.join(wd, 'fuzz.log'), 'w'), stderr=subprocess.STDOUT, text=True)))
         execs = 0
         for wd, p in procs:
-            out, _ = p.communicate()
+            p.wait()          # output goes to a file: a full pipe would block the fuzzers one after the other
+            with open(os.path.join(wd, "fuzz.log")) as lf:
+                out = lf.read()
             for ln in out.splitlines():
                 if ln.startswith("stat::number_of_executed_units:"):
                     execs += int(ln.split(":")[-1])
